@@ -196,7 +196,9 @@ func runC15(c *Ctx) {
 		})
 	}
 	// constructors from time.Time
-	secs := []int64{0, -1, 1, 1<<31 - 1, 1 << 31, 1<<32 - 1, 1 << 32, 1<<32 + 1, -1 << 31, math.MaxInt64 / 2000, 253402300799, 1700000000}
+	secs := []int64{0, -1, 1, 1<<31 - 1, 1 << 31, 1<<32 - 1, 1 << 32, 1<<32 + 1, -1 << 31, math.MaxInt64 / 2000, 253402300799, 1700000000,
+		// far beyond any calendar: second counts whose millisecond or nanosecond form wraps around 2^64
+		1 << 40, 1 << 53, 1 << 61, 1 << 62, 1<<62 + 1800000, 18446744073709552, 18446744073709552 + 1800000, 9223372036854776, -(1 << 61)}
 	for i := 0; i < c.N(300, 10000); i++ {
 		s := int64(r.U64() >> uint(28+r.Intn(30)))
 		if r.Intn(6) == 0 {
